@@ -3,6 +3,8 @@ package main
 
 import (
 	"fmt"
+	"strconv"
+	"strings"
 	"time"
 
 	"harness/enga"
@@ -13,8 +15,88 @@ import (
 	"github.com/welllog/golib/zzsim/core"
 )
 
+// listAPI is the list seen through int values; the element type of the real list varies per
+// case (elem), so that a change which is wrong only for some instantiation (multi-word values
+// copied non-atomically, pointer-free fast paths) does not hide behind SyncList[int].
+type listAPI interface {
+	Push(int)
+	Pop() (int, bool)
+	PopWait(time.Duration) (int, bool)
+	Len() int
+}
+
+type listOf[T any] struct {
+	l   *listz.SyncList[T]
+	enc func(int) T
+	dec func(T) int
+}
+
+func (a *listOf[T]) Push(v int) { a.l.Push(a.enc(v)) }
+func (a *listOf[T]) Pop() (int, bool) {
+	v, ok := a.l.Pop()
+	if !ok {
+		return 0, false
+	}
+	return a.dec(v), true
+}
+func (a *listOf[T]) PopWait(d time.Duration) (int, bool) {
+	v, ok := a.l.PopWait(d)
+	if !ok {
+		return 0, false
+	}
+	return a.dec(v), true
+}
+func (a *listOf[T]) Len() int { return a.l.Len() }
+
+type triple struct {
+	A int
+	B int64
+	C uint64
+}
+
+const tornBase = 0x7ead0000
+
+func newList(elem int) listAPI {
+	switch elem {
+	case 1:
+		return &listOf[string]{l: listz.NewSync[string](), enc: func(v int) string { return "v" + strconv.Itoa(v) },
+			dec: func(s string) int {
+				n, err := strconv.Atoi(strings.TrimPrefix(s, "v"))
+				if err != nil || !strings.HasPrefix(s, "v") {
+					return tornBase + len(s)
+				}
+				return n
+			}}
+	case 2:
+		return &listOf[triple]{l: listz.NewSync[triple](), enc: func(v int) triple { return triple{v, ^int64(v), uint64(v) * 3} },
+			dec: func(t triple) int {
+				if t.B != ^int64(t.A) || t.C != uint64(t.A)*3 {
+					return tornBase + 1000 + t.A&0xff
+				}
+				return t.A
+			}}
+	case 3:
+		return &listOf[*int]{l: listz.NewSync[*int](), enc: func(v int) *int { return &v },
+			dec: func(p *int) int {
+				if p == nil {
+					return tornBase + 2000
+				}
+				return *p
+			}}
+	case 4:
+		return &listOf[any]{l: listz.NewSync[any](), enc: func(v int) any { return v },
+			dec: func(x any) int {
+				if n, ok := x.(int); ok {
+					return n
+				}
+				return tornBase + 3000
+			}}
+	}
+	return &listOf[int]{l: listz.NewSync[int](), enc: func(v int) int { return v }, dec: func(v int) int { return v }}
+}
+
 type inst struct {
-	l    *listz.SyncList[int]
+	l    listAPI
 	init []int
 }
 
@@ -105,12 +187,13 @@ func gen(r *sim.Rng, tier string) *sim.Case {
 	if r.Pct(50) {
 		c.Sched.TickPct = []int{2, 10, 30}[r.N(3)]
 	}
+	c.Params["elem"] = r.Pick(6, 2, 3, 2, 1) // element type: int, string, three-word struct, pointer, interface
 	c.EnvSeed = r.U64() >> 12
 	return c
 }
 
 func build(c *sim.Case) enga.Instance {
-	x := &inst{l: listz.NewSync[int]()}
+	x := &inst{l: newList(c.P("elem"))}
 	for i := 0; i < c.P("init"); i++ {
 		v := 0xF000 + i + 1
 		x.l.Push(v)
@@ -351,5 +434,7 @@ func check(run *enga.Run) *sim.Violation {
 }
 
 func main() {
-	enga.Main(&enga.Spec{ID: "C11", Gen: gen, New: build, Check: check})
+	enga.Main(&enga.Spec{ID: "C11", Gen: gen, New: build, Check: check,
+		// Push waits for in-flight pushes and PopWait(<0) for a value; everything else must finish by itself
+		Bounded: func(op sim.Op) bool { return op.Op != "Push" && !(op.Op == "PopWait" && op.D < 0) }})
 }
